@@ -1,7 +1,1749 @@
-//! C31: not implemented yet.
+//! C31: row records round-trip through the record format.
+//!
+//! Real `RecordBuilder` -> bytes -> real `RecordView` on generated schemas (1..64 columns, all 32
+//! `DataType`s, CHAR(n)/VARCHAR(n), nested composites, arrays) and generated rows (NULLs, boundary
+//! values, empty / TOAST-threshold / 64 KiB-filling variable data). Oracle = the generated row itself.
+//!
+//! Sub-assertions
+//!   build_ok            every setter and `build()` succeed on a row that fits the schema
+//!   format_invariants   header_len / total length follow the documented layout
+//!   null_flag           `is_null(i)` == the row's NULL-ness
+//!   getter_round_trip   the typed getter returns the value that was set (floats by bits)
+//!   opt_getter          `get_*_opt` is `None` exactly for NULL columns and `Some(same)` otherwise
+//!   reset_rebuild       dirty builder + `reset()` + same setters == fresh builder, byte for byte
+//!                       (also `build_into`, `RecordBuilderState` round trip)
+//!   owned_glue          OwnedValue::build_record_{from_values,with_builder,into_buffer} agree
+//!                       byte for byte and the record reads back as the row
+//!   owned_extract       OwnedValue::from_record_column / extract_row_from_record return the row
+//!   array / composite   ArrayBuilder/ArrayView and CompositeView embedded in a column
+//!   oversize_var_data   (outside the u16 offset domain) build() must reject or still round-trip
+//!   no_panic            nothing above panics
+use crate::report::{catch, panic_site, Ctx};
+use crate::rng::{fnv, Rng};
 use crate::Args;
+use serde_json::{json, Value as J};
+use turdb::records::{
+    ArrayBuilder, ColumnDef, DataType, JsonbBuilder, Range, RecordBuilder, RecordView, Schema,
+};
+use turdb::types::OwnedValue;
 
-pub fn run(_a: &Args) -> i32 {
-    println!("INCONCLUSIVE property=C31 reason=check not implemented yet");
-    2
+const MAX_VAR: usize = 65535; // u16 end offsets in the record header
+
+const ALL_TYPES: [DataType; 32] = [
+    DataType::Bool,
+    DataType::Int2,
+    DataType::Int4,
+    DataType::Int8,
+    DataType::Float4,
+    DataType::Float8,
+    DataType::Date,
+    DataType::Time,
+    DataType::Timestamp,
+    DataType::TimestampTz,
+    DataType::Uuid,
+    DataType::MacAddr,
+    DataType::Inet4,
+    DataType::Inet6,
+    DataType::Text,
+    DataType::Blob,
+    DataType::Vector,
+    DataType::Jsonb,
+    DataType::Varchar,
+    DataType::Char,
+    DataType::Decimal,
+    DataType::Interval,
+    DataType::Int4Range,
+    DataType::Int8Range,
+    DataType::DateRange,
+    DataType::TimestampRange,
+    DataType::Enum,
+    DataType::Point,
+    DataType::Box,
+    DataType::Circle,
+    DataType::Composite,
+    DataType::Array,
+];
+
+const ELEM_TYPES: [DataType; 8] = [
+    DataType::Int2,
+    DataType::Int4,
+    DataType::Int8,
+    DataType::Float4,
+    DataType::Float8,
+    DataType::Bool,
+    DataType::Text,
+    DataType::Blob,
+];
+
+#[derive(Clone, Debug)]
+struct Col {
+    dt: DataType,
+    clen: Option<u32>,
+    nested: Vec<Col>,
+    elem: DataType,
+}
+
+#[derive(Clone, Debug)]
+enum El {
+    I16(i16),
+    I32(i32),
+    I64(i64),
+    F32(f32),
+    F64(f64),
+    B(bool),
+    S(String),
+    Y(Vec<u8>),
+}
+
+type R32 = Option<(Option<i32>, Option<i32>, bool, bool)>; // None = empty range
+type R64 = Option<(Option<i64>, Option<i64>, bool, bool)>;
+
+#[derive(Clone, Debug)]
+enum V {
+    /// bool: call set_null explicitly (true) or leave the column untouched (false)
+    Null(bool),
+    Bool(bool),
+    I16(i16),
+    I32(i32),
+    I64(i64),
+    F32(f32),
+    F64(f64),
+    TsTz(i64, i32),
+    B16([u8; 16]),
+    B6([u8; 6]),
+    B4([u8; 4]),
+    Interval(i64, i32, i32),
+    Point(f64, f64),
+    GBox((f64, f64), (f64, f64)),
+    Circle((f64, f64), f64),
+    Enum(u16, u16),
+    R32(R32),
+    R64(R64),
+    Str(String),
+    Bytes(Vec<u8>),
+    Vec32(Vec<f32>),
+    /// bytes, Some(seed) = set through set_jsonb(&JsonbBuilder) built from the seed
+    Json(Vec<u8>, Option<u64>),
+    Dec(i128, i16, bool),
+    Comp(Vec<V>, Vec<u8>),
+    Arr(Vec<Option<El>>, Vec<u8>),
+}
+
+impl V {
+    fn is_null(&self) -> bool {
+        matches!(self, V::Null(_))
+    }
+}
+
+fn is_fixed(dt: DataType) -> bool {
+    dt.fixed_size().is_some()
+}
+
+fn mk_schema(cols: &[Col]) -> Schema {
+    let defs = cols
+        .iter()
+        .enumerate()
+        .map(|(i, c)| match c.dt {
+            DataType::Char => ColumnDef::new_char(format!("c{}", i), c.clen.unwrap_or(1)),
+            DataType::Varchar => ColumnDef::new_varchar(format!("c{}", i), c.clen),
+            dt => ColumnDef::new(format!("c{}", i), dt),
+        })
+        .collect();
+    Schema::new(defs)
+}
+
+// ---------------------------------------------------------------- generators
+
+fn gen_i64(rng: &mut Rng) -> i64 {
+    match rng.below(4) {
+        0 => *rng.pick(&[0i64, 1, -1, i64::MIN, i64::MAX, i64::MIN + 1, i64::MAX - 1, 255, 256, -256, 65535, 65536, i32::MAX as i64, i32::MAX as i64 + 1, i32::MIN as i64, i32::MIN as i64 - 1]),
+        1 => rng.next() as i64,
+        _ => {
+            let sh = rng.below(64);
+            let v = (rng.next() >> sh) as i64;
+            if rng.chance(1, 2) {
+                v.wrapping_neg()
+            } else {
+                v
+            }
+        }
+    }
+}
+fn gen_i32(rng: &mut Rng) -> i32 {
+    match rng.below(3) {
+        0 => *rng.pick(&[0i32, 1, -1, i32::MIN, i32::MAX, i32::MIN + 1, i32::MAX - 1, 255, 256, 65535, 65536, -65536]),
+        1 => rng.next() as i32,
+        _ => ((rng.next() as u32) >> rng.below(32)) as i32,
+    }
+}
+fn gen_i16(rng: &mut Rng) -> i16 {
+    match rng.below(3) {
+        0 => *rng.pick(&[0i16, 1, -1, i16::MIN, i16::MAX, 255, 256, -256]),
+        _ => rng.next() as i16,
+    }
+}
+fn gen_f64(rng: &mut Rng) -> f64 {
+    match rng.below(3) {
+        0 => f64::from_bits(*rng.pick(&[
+            0u64,
+            0x8000_0000_0000_0000,          // -0.0
+            0x7FF8_0000_0000_0000,          // NaN
+            0xFFF8_0000_0000_0000,          // -NaN
+            0x7FF0_0000_0000_0001,          // signalling NaN
+            0x7FFF_FFFF_FFFF_FFFF,          // NaN, full payload
+            0x7FF0_0000_0000_0000,          // +inf
+            0xFFF0_0000_0000_0000,          // -inf
+            0x0000_0000_0000_0001,          // smallest subnormal
+            0x0010_0000_0000_0000,          // MIN_POSITIVE
+            0x7FEF_FFFF_FFFF_FFFF,          // MAX
+            0xFFEF_FFFF_FFFF_FFFF,          // MIN
+            0x3FF0_0000_0000_0000,          // 1.0
+        ])),
+        1 => f64::from_bits(rng.next()),
+        _ => (rng.f64() - 0.5) * 10f64.powi(rng.range(-20, 20) as i32),
+    }
+}
+fn gen_f32(rng: &mut Rng) -> f32 {
+    match rng.below(3) {
+        0 => f32::from_bits(*rng.pick(&[0u32, 0x8000_0000, 0x7FC0_0000, 0xFFC0_0000, 0x7F80_0001, 0x7FFF_FFFF, 0x7F80_0000, 0xFF80_0000, 1, 0x0080_0000, 0x7F7F_FFFF, 0xFF7F_FFFF, 0x3F80_0000])),
+        1 => f32::from_bits(rng.next() as u32),
+        _ => ((rng.f64() - 0.5) * 10f64.powi(rng.range(-10, 10) as i32)) as f32,
+    }
+}
+fn gen_arr<const N: usize>(rng: &mut Rng) -> [u8; N] {
+    let mut a = [0u8; N];
+    match rng.below(4) {
+        0 => {}
+        1 => a = [0xFF; N],
+        _ => {
+            let b = rng.bytes(N);
+            a.copy_from_slice(&b);
+        }
+    }
+    a
+}
+
+/// valid UTF-8 string of at most `max_bytes` bytes (and at most `max_chars` chars)
+fn gen_string(rng: &mut Rng, max_bytes: usize, max_chars: usize) -> String {
+    let style = rng.below(6);
+    let mut s = String::new();
+    if style == 5 && max_bytes >= 64 {
+        // bulk filler: cheap for very long strings
+        let unit = *rng.pick(&["a", "xy ", "\u{e9}", "\u{4e2d}", "\u{1F600}"]);
+        let ulen = unit.len();
+        let n = (max_bytes / ulen).min(max_chars / unit.chars().count());
+        return unit.repeat(n);
+    }
+    let mut chars = 0;
+    loop {
+        if chars >= max_chars {
+            break;
+        }
+        let ch: char = match style {
+            0 => (b'a' + rng.below(26) as u8) as char,
+            1 => *rng.pick(&['\0', ' ', '\t', '\n', '\'', '"', '\\', '%', '_', 'A', '\u{7f}']),
+            2 => *rng.pick(&['\u{e9}', '\u{df}', '\u{4e2d}', '\u{1F600}', '\u{10FFFF}', '\u{80}', '\u{7ff}', '\u{800}', '\u{ffff}', 'z']),
+            3 => ' ',
+            _ => match rng.below(4) {
+                0 => (0x20 + rng.below(0x5f) as u8) as char,
+                1 => char::from_u32(0x80 + rng.below(0x700) as u32).unwrap_or('?'),
+                2 => char::from_u32(0x800 + rng.below(0xD000 - 0x800) as u32).unwrap_or('?'),
+                _ => char::from_u32(0x10000 + rng.below(0x100000) as u32).unwrap_or('?'),
+            },
+        };
+        if s.len() + ch.len_utf8() > max_bytes {
+            break;
+        }
+        s.push(ch);
+        chars += 1;
+    }
+    s
+}
+
+fn gen_bytes(rng: &mut Rng, n: usize) -> Vec<u8> {
+    let mut b = match rng.below(5) {
+        0 => vec![0u8; n],
+        1 => vec![0xFFu8; n],
+        2 => vec![0xFEu8; n],
+        _ => rng.bytes(n),
+    };
+    // a 17-byte value starting with 0xFE *is* the documented TOAST pointer format; never produce
+    // one by accident, the glue would (by design) report it as a pointer
+    if b.len() == 17 && b[0] == 0xFE {
+        b[0] = 0x7E;
+    }
+    b
+}
+
+/// length distribution for variable data: empty, tiny, small, around the TOAST threshold, up to cap
+fn pick_len(rng: &mut Rng, cap: usize) -> usize {
+    let l = match rng.below(16) {
+        0 | 1 => 0,
+        2..=7 => rng.usize(1, 16),
+        8..=11 => rng.usize(17, 300),
+        12 | 13 => rng.usize(990, 2100),
+        _ => rng.usize(0, cap.max(1)),
+    };
+    l.min(cap)
+}
+
+fn mk_json(seed: u64) -> JsonbBuilder {
+    let mut r = Rng::new(seed);
+    match r.below(6) {
+        0 => JsonbBuilder::new_null(),
+        1 => JsonbBuilder::new_bool(r.chance(1, 2)),
+        2 => JsonbBuilder::new_number(r.f64() * 1e6 - 5e5),
+        3 => JsonbBuilder::new_string(gen_string(&mut r, 24, 24)),
+        4 => {
+            let mut a = JsonbBuilder::new_array();
+            for _ in 0..r.below(6) {
+                match r.below(3) {
+                    0 => a.push(r.next() as i64 >> 20),
+                    1 => a.push(r.chance(1, 2)),
+                    _ => a.push(gen_string(&mut r, 8, 8)),
+                }
+            }
+            a
+        }
+        _ => {
+            let mut o = JsonbBuilder::new_object();
+            for k in 0..r.below(6) {
+                let key = format!("k{}{}", k, gen_string(&mut r, 4, 4));
+                match r.below(3) {
+                    0 => o.set(key, r.f64()),
+                    1 => o.set(key, r.chance(1, 2)),
+                    _ => o.set(key, gen_string(&mut r, 12, 12)),
+                }
+            }
+            o
+        }
+    }
+}
+
+fn gen_col(rng: &mut Rng, dt: DataType, depth: usize) -> Col {
+    let mut c = Col { dt, clen: None, nested: vec![], elem: DataType::Int4 };
+    match dt {
+        DataType::Char => c.clen = Some(*rng.pick(&[1u32, 2, 3, 8, 10, 32, 255])),
+        DataType::Varchar => {
+            c.clen = if rng.chance(1, 3) { None } else { Some(*rng.pick(&[1u32, 5, 16, 255, 1000, 70000])) }
+        }
+        DataType::Array => c.elem = *rng.pick(&ELEM_TYPES),
+        DataType::Composite => {
+            let n = rng.usize(1, 9);
+            for _ in 0..n {
+                let mut ndt = *rng.pick(&ALL_TYPES);
+                if ndt == DataType::Composite && depth >= 2 {
+                    ndt = DataType::Int4;
+                }
+                c.nested.push(gen_col(rng, ndt, depth + 1));
+            }
+        }
+        _ => {}
+    }
+    c
+}
+
+fn gen_schema(rng: &mut Rng, ncols: usize) -> Vec<Col> {
+    let style = rng.below(8);
+    let fixed: Vec<DataType> = ALL_TYPES.iter().cloned().filter(|d| is_fixed(*d)).collect();
+    let var: Vec<DataType> = ALL_TYPES.iter().cloned().filter(|d| !is_fixed(*d)).collect();
+    let one = *rng.pick(&ALL_TYPES);
+    let rot = rng.below(32) as usize;
+    (0..ncols)
+        .map(|i| {
+            let dt = match style {
+                0 => *rng.pick(&fixed),
+                1 => *rng.pick(&var),
+                2 => one,
+                3 => ALL_TYPES[(i + rot) % 32],
+                4 => *rng.pick(&[DataType::Text, DataType::Blob, DataType::Varchar, DataType::Int8, DataType::Bool]),
+                _ => *rng.pick(&ALL_TYPES),
+            };
+            gen_col(rng, dt, 0)
+        })
+        .collect()
+}
+
+fn elem_fixed_size(dt: DataType) -> usize {
+    dt.fixed_size().unwrap_or(0)
+}
+
+fn build_array(elem: DataType, els: &[Option<El>]) -> Vec<u8> {
+    let mut b = ArrayBuilder::new(elem);
+    push_array(&mut b, els);
+    b.build()
+}
+fn push_array(b: &mut ArrayBuilder, els: &[Option<El>]) {
+    for e in els {
+        match e {
+            None => b.push_null(),
+            Some(El::I16(v)) => b.push_int2(*v),
+            Some(El::I32(v)) => b.push_int4(*v),
+            Some(El::I64(v)) => b.push_int8(*v),
+            Some(El::F32(v)) => b.push_float4(*v),
+            Some(El::F64(v)) => b.push_float8(*v),
+            Some(El::B(v)) => b.push_bool(*v),
+            Some(El::S(v)) => b.push_text(v),
+            Some(El::Y(v)) => b.push_blob(v),
+        }
+    }
+}
+
+/// Generate a non-NULL value of column `c` whose variable-size encoding is <= cap bytes;
+/// returns None if nothing of that type fits in `cap`.
+fn gen_value(rng: &mut Rng, c: &Col, cap: usize, small: bool) -> Option<V> {
+    let vcap = if small { cap.min(48) } else { cap };
+    Some(match c.dt {
+        DataType::Bool => V::Bool(rng.chance(1, 2)),
+        DataType::Int2 => V::I16(gen_i16(rng)),
+        DataType::Int4 | DataType::Date => V::I32(gen_i32(rng)),
+        DataType::Int8 | DataType::Time | DataType::Timestamp => V::I64(gen_i64(rng)),
+        DataType::Float4 => V::F32(gen_f32(rng)),
+        DataType::Float8 => V::F64(gen_f64(rng)),
+        DataType::TimestampTz => V::TsTz(gen_i64(rng), gen_i32(rng)),
+        DataType::Uuid | DataType::Inet6 => V::B16(gen_arr::<16>(rng)),
+        DataType::MacAddr => V::B6(gen_arr::<6>(rng)),
+        DataType::Inet4 => V::B4(gen_arr::<4>(rng)),
+        DataType::Interval => V::Interval(gen_i64(rng), gen_i32(rng), gen_i32(rng)),
+        DataType::Point => V::Point(gen_f64(rng), gen_f64(rng)),
+        DataType::Box => V::GBox((gen_f64(rng), gen_f64(rng)), (gen_f64(rng), gen_f64(rng))),
+        DataType::Circle => V::Circle((gen_f64(rng), gen_f64(rng)), gen_f64(rng)),
+        DataType::Enum => V::Enum(rng.next() as u16, *rng.pick(&[0u16, 1, 255, 256, 65535])),
+        DataType::Int4Range | DataType::DateRange => V::R32(if rng.chance(1, 6) {
+            None
+        } else {
+            Some((
+                if rng.chance(1, 4) { None } else { Some(gen_i32(rng)) },
+                if rng.chance(1, 4) { None } else { Some(gen_i32(rng)) },
+                rng.chance(1, 2),
+                rng.chance(1, 2),
+            ))
+        }),
+        DataType::Int8Range | DataType::TimestampRange => V::R64(if rng.chance(1, 6) {
+            None
+        } else {
+            Some((
+                if rng.chance(1, 4) { None } else { Some(gen_i64(rng)) },
+                if rng.chance(1, 4) { None } else { Some(gen_i64(rng)) },
+                rng.chance(1, 2),
+                rng.chance(1, 2),
+            ))
+        }),
+        DataType::Text => {
+            let l = pick_len(rng, vcap);
+            V::Str(gen_string(rng, l, usize::MAX))
+        }
+        DataType::Varchar => {
+            let l = pick_len(rng, vcap);
+            V::Str(gen_string(rng, l, c.clen.map(|n| n as usize).unwrap_or(usize::MAX)))
+        }
+        DataType::Char => {
+            // padded to clen chars with 1-byte spaces: worst case 4*clen bytes
+            let n = c.clen.unwrap_or(1) as usize;
+            if vcap < n {
+                return None;
+            }
+            // leave room for the padding: bytes(s) + (n - chars(s)) <= vcap
+            let nchars = rng.usize(0, n);
+            let mut s = gen_string(rng, vcap.min(4 * n), nchars);
+            while s.len() + (n - s.chars().count()) > vcap {
+                s.pop();
+            }
+            V::Str(s)
+        }
+        DataType::Blob => {
+            let l = pick_len(rng, vcap);
+            V::Bytes(gen_bytes(rng, l))
+        }
+        DataType::Vector => {
+            if vcap < 4 {
+                return None;
+            }
+            let maxn = (vcap - 4) / 4;
+            let n = match rng.below(8) {
+                0 => 0,
+                1 => maxn.min(1536),
+                2 => maxn,
+                _ => rng.usize(0, 16).min(maxn),
+            };
+            V::Vec32((0..n).map(|_| gen_f32(rng)).collect())
+        }
+        DataType::Jsonb => {
+            let seed = rng.next();
+            let bytes = mk_json(seed).build();
+            if bytes.len() <= vcap {
+                V::Json(bytes, if rng.chance(1, 2) { Some(seed) } else { None })
+            } else if vcap >= 4 {
+                V::Json(JsonbBuilder::new_null().build(), None)
+            } else {
+                return None;
+            }
+        }
+        DataType::Decimal => {
+            if vcap < 19 {
+                return None;
+            }
+            let digits: i128 = match rng.below(4) {
+                0 => *rng.pick(&[0i128, 1, -1, i128::MAX, i128::MIN, i64::MAX as i128 + 1]),
+                1 => ((rng.next() as u128) << 64 | rng.next() as u128) as i128,
+                _ => gen_i64(rng) as i128,
+            };
+            V::Dec(digits, gen_i16(rng), rng.chance(1, 2))
+        }
+        DataType::Composite => {
+            let ns = mk_schema(&c.nested);
+            let header = 2 + c.nested.len().div_ceil(8) + 2 * ns.var_column_count();
+            let base = header + ns.total_fixed_size();
+            if vcap < base {
+                return None;
+            }
+            let vals = gen_row(rng, &c.nested, (vcap - base).min(400), RowClass::Small);
+            let bytes = build_direct(&ns, &c.nested, &vals, None).ok()?;
+            if bytes.len() > vcap {
+                return None;
+            }
+            V::Comp(vals, bytes)
+        }
+        DataType::Array => {
+            let esz = elem_fixed_size(c.elem);
+            let var = esz == 0;
+            let maxn = if rng.chance(1, 10) { 3000 } else { 24 };
+            let want = rng.usize(0, maxn);
+            let mut els: Vec<Option<El>> = vec![];
+            let mut payload = 0usize;
+            for _ in 0..want {
+                let e = if rng.chance(1, 5) {
+                    None
+                } else {
+                    Some(match c.elem {
+                        DataType::Int2 => El::I16(gen_i16(rng)),
+                        DataType::Int4 => El::I32(gen_i32(rng)),
+                        DataType::Int8 => El::I64(gen_i64(rng)),
+                        DataType::Float4 => El::F32(gen_f32(rng)),
+                        DataType::Float8 => El::F64(gen_f64(rng)),
+                        DataType::Bool => El::B(rng.chance(1, 2)),
+                        DataType::Text => {
+                            let l = rng.usize(0, 12);
+                            El::S(gen_string(rng, l, usize::MAX))
+                        }
+                        _ => {
+                            let l = rng.usize(0, 12);
+                            El::Y(rng.bytes(l))
+                        }
+                    })
+                };
+                let add = match &e {
+                    Some(El::S(s)) => s.len(),
+                    Some(El::Y(y)) => y.len(),
+                    _ => esz, // fixed: nulls occupy a zeroed slot; var nulls: 0
+                };
+                let n1 = els.len() + 1;
+                let total = 8 + n1.div_ceil(8) + if var { 4 * n1 } else { 0 } + payload + add;
+                if total > vcap {
+                    break;
+                }
+                payload += add;
+                els.push(e);
+            }
+            if vcap < 8 {
+                return None;
+            }
+            let bytes = build_array(c.elem, &els);
+            if bytes.len() > vcap {
+                return None;
+            }
+            V::Arr(els, bytes)
+        }
+    })
+}
+
+fn var_size(c: &Col, v: &V) -> usize {
+    match v {
+        V::Str(s) => {
+            if c.dt == DataType::Char {
+                let n = c.clen.unwrap_or(1) as usize;
+                s.len() + n.saturating_sub(s.chars().count())
+            } else {
+                s.len()
+            }
+        }
+        V::Bytes(b) => b.len(),
+        V::Vec32(x) => 4 + 4 * x.len(),
+        V::Json(b, _) => b.len(),
+        V::Dec(..) => 19,
+        V::Comp(_, b) => b.len(),
+        V::Arr(_, b) => b.len(),
+        _ => 0,
+    }
+}
+
+#[derive(Clone, Copy, Debug, PartialEq)]
+enum RowClass {
+    Small,
+    Medium,
+    Huge,
+    /// total variable bytes == exactly 65535 (or 65534) where the schema allows
+    Exact,
+}
+
+fn gen_row(rng: &mut Rng, cols: &[Col], budget: usize, class: RowClass) -> Vec<V> {
+    let null_p = *rng.pick(&[0u64, 0, 1, 4, 7, 8]); // out of 8
+    let mut remaining = budget;
+    let mut idx: Vec<usize> = (0..cols.len()).collect();
+    rng.shuffle(&mut idx); // so that the budget is not always eaten by the first columns
+    let mut out: Vec<V> = vec![V::Null(false); cols.len()];
+    let nvar = cols.iter().filter(|c| !is_fixed(c.dt)).count().max(1);
+    for i in idx {
+        let c = &cols[i];
+        if rng.below(8) < null_p {
+            out[i] = V::Null(rng.chance(1, 2));
+            continue;
+        }
+        let cap = match class {
+            RowClass::Small => remaining.min(48),
+            RowClass::Medium => remaining.min(3000).min(remaining / nvar + 64).min(remaining),
+            RowClass::Huge | RowClass::Exact => remaining,
+        };
+        match gen_value(rng, c, cap, class == RowClass::Small) {
+            Some(v) => {
+                remaining -= var_size(c, &v);
+                out[i] = v;
+            }
+            None => out[i] = V::Null(rng.chance(1, 2)),
+        }
+    }
+    if class == RowClass::Exact {
+        let target = budget - (rng.below(2) as usize);
+        let used = budget - remaining;
+        if used < target {
+            // grow one non-null text/blob column to hit the target exactly
+            for i in 0..cols.len() {
+                let grow = target - used;
+                match (&cols[i].dt, &mut out[i]) {
+                    (DataType::Text, V::Str(s)) | (DataType::Varchar, V::Str(s)) if cols[i].clen.is_none() => {
+                        s.push_str(&"q".repeat(grow));
+                        break;
+                    }
+                    (DataType::Blob, V::Bytes(b)) => {
+                        b.extend(std::iter::repeat(0xABu8).take(grow));
+                        if b.len() == 17 && b[0] == 0xFE {
+                            b[0] = 0x7E;
+                        }
+                        break;
+                    }
+                    _ => {}
+                }
+            }
+        }
+    }
+    out
+}
+
+// ---------------------------------------------------------------- apply (set through the real builder)
+
+fn apply(b: &mut RecordBuilder<'_>, i: usize, c: &Col, v: &V) -> eyre::Result<()> {
+    match v {
+        V::Null(explicit) => {
+            if *explicit {
+                b.set_null(i)
+            }
+            Ok(())
+        }
+        V::Bool(x) => b.set_bool(i, *x),
+        V::I16(x) => b.set_int2(i, *x),
+        V::I32(x) => {
+            if c.dt == DataType::Date {
+                b.set_date(i, *x)
+            } else {
+                b.set_int4(i, *x)
+            }
+        }
+        V::I64(x) => match c.dt {
+            DataType::Time => b.set_time(i, *x),
+            DataType::Timestamp => b.set_timestamp(i, *x),
+            _ => b.set_int8(i, *x),
+        },
+        V::F32(x) => b.set_float4(i, *x),
+        V::F64(x) => b.set_float8(i, *x),
+        V::TsTz(m, o) => b.set_timestamptz(i, *m, *o),
+        V::B16(x) => {
+            if c.dt == DataType::Uuid {
+                b.set_uuid(i, x)
+            } else {
+                b.set_inet6(i, x)
+            }
+        }
+        V::B6(x) => b.set_macaddr(i, x),
+        V::B4(x) => b.set_inet4(i, x),
+        V::Interval(m, d, mo) => b.set_interval(i, *m, *d, *mo),
+        V::Point(x, y) => b.set_point(i, *x, *y),
+        V::GBox(l, h) => b.set_box(i, *l, *h),
+        V::Circle(ce, r) => b.set_circle(i, *ce, *r),
+        V::Enum(t, o) => b.set_enum(i, *t, *o),
+        V::R32(None) => {
+            if c.dt == DataType::DateRange {
+                b.set_date_range_empty(i)
+            } else {
+                b.set_int4_range_empty(i)
+            }
+        }
+        V::R32(Some((lo, hi, li, ui))) => {
+            if c.dt == DataType::DateRange {
+                b.set_date_range(i, *lo, *hi, *li, *ui)
+            } else {
+                b.set_int4_range(i, *lo, *hi, *li, *ui)
+            }
+        }
+        V::R64(None) => {
+            if c.dt == DataType::TimestampRange {
+                b.set_timestamp_range_empty(i)
+            } else {
+                b.set_int8_range_empty(i)
+            }
+        }
+        V::R64(Some((lo, hi, li, ui))) => {
+            if c.dt == DataType::TimestampRange {
+                b.set_timestamp_range(i, *lo, *hi, *li, *ui)
+            } else {
+                b.set_int8_range(i, *lo, *hi, *li, *ui)
+            }
+        }
+        V::Str(s) => match c.dt {
+            DataType::Char => b.set_char(i, s),
+            DataType::Varchar => b.set_varchar(i, s),
+            _ => b.set_text(i, s),
+        },
+        V::Bytes(x) => b.set_blob(i, x),
+        V::Vec32(x) => b.set_vector(i, x),
+        V::Json(bytes, seed) => match seed {
+            Some(s) => b.set_jsonb(i, &mk_json(*s)),
+            None => b.set_jsonb_bytes(i, bytes),
+        },
+        V::Dec(d, s, n) => b.set_decimal(i, *d, *s, *n),
+        V::Comp(_, bytes) => b.set_composite(i, bytes),
+        V::Arr(_, bytes) => b.set_array(i, bytes),
+    }
+}
+
+/// set all columns (in `order` if given) and build
+fn build_direct(schema: &Schema, cols: &[Col], vals: &[V], order: Option<&[usize]>) -> eyre::Result<Vec<u8>> {
+    let mut b = RecordBuilder::new(schema);
+    apply_all(&mut b, cols, vals, order)?;
+    b.build()
+}
+fn apply_all(b: &mut RecordBuilder<'_>, cols: &[Col], vals: &[V], order: Option<&[usize]>) -> eyre::Result<()> {
+    match order {
+        Some(o) => {
+            for &i in o {
+                apply(b, i, &cols[i], &vals[i])?;
+            }
+        }
+        None => {
+            for i in 0..cols.len() {
+                apply(b, i, &cols[i], &vals[i])?;
+            }
+        }
+    }
+    Ok(())
+}
+
+// ---------------------------------------------------------------- checks
+
+struct Fail {
+    assertion: &'static str,
+    sig: String,
+    detail: J,
+}
+
+fn fail(out: &mut Vec<Fail>, assertion: &'static str, dt: DataType, what: &str, i: usize, detail: String) {
+    out.push(Fail { assertion, sig: format!("C31/{}/{:?}/{}", assertion, dt, what), detail: json!({"col": i, "type": format!("{:?}", dt), "what": what, "detail": detail}) });
+}
+
+fn f64s(a: f64, b: f64) -> bool {
+    a.to_bits() == b.to_bits()
+}
+
+#[derive(Clone, Copy, PartialEq)]
+enum Mode {
+    /// typed setters: CHAR padded by set_char, decimal sign flag free
+    Direct,
+    /// through OwnedValue::set_in_builder: CHAR stored as given, decimal sign = digits < 0
+    Glue,
+}
+
+fn char_expected(c: &Col, s: &str, mode: Mode) -> String {
+    if c.dt == DataType::Char && mode == Mode::Direct {
+        let n = c.clen.unwrap_or(1) as usize;
+        let mut t = s.to_string();
+        for _ in s.chars().count()..n {
+            t.push(' ');
+        }
+        t
+    } else {
+        s.to_string()
+    }
+}
+
+macro_rules! getter {
+    ($out:expr, $i:expr, $dt:expr, $plain:expr, $opt:expr, $want:expr, $eq:expr) => {{
+        match $plain {
+            Ok(g) => {
+                if !$eq(&g, &$want) {
+                    fail($out, "getter_round_trip", $dt, "value", $i, format!("got {} want {}", trunc(&format!("{:?}", g)), trunc(&format!("{:?}", $want))));
+                }
+            }
+            Err(e) => fail($out, "getter_round_trip", $dt, "getter_err", $i, e.to_string()),
+        }
+        match $opt {
+            Ok(Some(g)) => {
+                if !$eq(&g, &$want) {
+                    fail($out, "opt_getter", $dt, "value", $i, format!("got {} want {}", trunc(&format!("{:?}", g)), trunc(&format!("{:?}", $want))));
+                }
+            }
+            Ok(None) => fail($out, "opt_getter", $dt, "non_null_reported_missing", $i, String::new()),
+            Err(e) => fail($out, "opt_getter", $dt, "getter_err", $i, e.to_string()),
+        }
+    }};
+}
+
+fn opt_none<T>(out: &mut Vec<Fail>, i: usize, dt: DataType, r: eyre::Result<Option<T>>) {
+    match r {
+        Ok(None) => {}
+        Ok(Some(_)) => fail(out, "opt_getter", dt, "null_read_as_value", i, String::new()),
+        Err(e) => fail(out, "opt_getter", dt, "getter_err_on_null", i, e.to_string()),
+    }
+}
+
+fn check_null_col(out: &mut Vec<Fail>, v: &RecordView<'_>, i: usize, c: &Col) {
+    let dt = c.dt;
+    match dt {
+        DataType::Bool => opt_none(out, i, dt, v.get_bool_opt(i)),
+        DataType::Int2 => opt_none(out, i, dt, v.get_int2_opt(i)),
+        DataType::Int4 => opt_none(out, i, dt, v.get_int4_opt(i)),
+        DataType::Int8 => opt_none(out, i, dt, v.get_int8_opt(i)),
+        DataType::Float4 => opt_none(out, i, dt, v.get_float4_opt(i)),
+        DataType::Float8 => opt_none(out, i, dt, v.get_float8_opt(i)),
+        DataType::Date => opt_none(out, i, dt, v.get_date_opt(i)),
+        DataType::Time => opt_none(out, i, dt, v.get_time_opt(i)),
+        DataType::Timestamp => opt_none(out, i, dt, v.get_timestamp_opt(i)),
+        DataType::TimestampTz => opt_none(out, i, dt, v.get_timestamptz_opt(i)),
+        DataType::Uuid => opt_none(out, i, dt, v.get_uuid_opt(i)),
+        DataType::MacAddr => opt_none(out, i, dt, v.get_macaddr_opt(i)),
+        DataType::Inet4 => opt_none(out, i, dt, v.get_inet4_opt(i)),
+        DataType::Inet6 => opt_none(out, i, dt, v.get_inet6_opt(i)),
+        DataType::Text | DataType::Varchar | DataType::Char => opt_none(out, i, dt, v.get_text_opt(i)),
+        DataType::Blob => opt_none(out, i, dt, v.get_blob_opt(i)),
+        DataType::Vector => opt_none(out, i, dt, v.get_vector_opt(i)),
+        DataType::Jsonb => opt_none(out, i, dt, v.get_jsonb_opt(i)),
+        DataType::Decimal => opt_none(out, i, dt, v.get_decimal_opt(i)),
+        DataType::Interval => opt_none(out, i, dt, v.get_interval_opt(i)),
+        DataType::Int4Range => opt_none(out, i, dt, v.get_int4_range_opt(i)),
+        DataType::DateRange => opt_none(out, i, dt, v.get_date_range_opt(i)),
+        DataType::Int8Range => opt_none(out, i, dt, v.get_int8_range_opt(i)),
+        DataType::TimestampRange => opt_none(out, i, dt, v.get_timestamp_range_opt(i)),
+        DataType::Enum => opt_none(out, i, dt, v.get_enum_opt(i)),
+        DataType::Point => opt_none(out, i, dt, v.get_point_opt(i)),
+        DataType::Box => opt_none(out, i, dt, v.get_box_opt(i)),
+        DataType::Circle => opt_none(out, i, dt, v.get_circle_opt(i)),
+        DataType::Composite => opt_none(out, i, dt, v.get_composite_opt(i, c.nested.len())),
+        DataType::Array => opt_none(out, i, dt, v.get_array_opt(i)),
+    }
+}
+
+fn want_r32(r: &R32) -> Range<i32> {
+    match r {
+        None => Range::empty(),
+        Some((lo, hi, li, ui)) => Range::new(*lo, *hi, *li, *ui),
+    }
+}
+fn want_r64(r: &R64) -> Range<i64> {
+    match r {
+        None => Range::empty(),
+        Some((lo, hi, li, ui)) => Range::new(*lo, *hi, *li, *ui),
+    }
+}
+
+fn vec_bits(a: &[f32]) -> Vec<u32> {
+    a.iter().map(|x| x.to_bits()).collect()
+}
+
+/// compare every column of the record against the model row
+fn check_view(out: &mut Vec<Fail>, bytes: &[u8], schema: &Schema, cols: &[Col], vals: &[V], mode: Mode, depth: usize, stats: &mut Stats) {
+    let view = match RecordView::new(bytes, schema) {
+        Ok(v) => v,
+        Err(e) => {
+            out.push(Fail { assertion: "getter_round_trip", sig: "C31/getter_round_trip/view_rejected_built_record".into(), detail: json!({"err": e.to_string()}) });
+            return;
+        }
+    };
+    // documented layout: [u16 header_len][bitmap (N+7)/8][u16 end offset per var col][fixed][var]
+    let nvar = schema.var_column_count();
+    let header = 2 + cols.len().div_ceil(8) + 2 * nvar;
+    let var_total: usize = cols.iter().zip(vals).map(|(c, v)| var_size_mode(c, v, mode)).sum();
+    if view.header_len() as usize != header || view.data_offset() != header {
+        out.push(Fail { assertion: "format_invariants", sig: "C31/format_invariants/header_len".into(), detail: json!({"header_len": view.header_len(), "want": header}) });
+    }
+    if bytes.len() != header + schema.total_fixed_size() + var_total {
+        out.push(Fail { assertion: "format_invariants", sig: "C31/format_invariants/total_len".into(), detail: json!({"len": bytes.len(), "want": header + schema.total_fixed_size() + var_total}) });
+    }
+    for (i, (c, val)) in cols.iter().zip(vals).enumerate() {
+        let dt = c.dt;
+        stats.cols += 1;
+        let isn = view.is_null(i);
+        if isn != val.is_null() {
+            fail(out, "null_flag", dt, if isn { "non_null_read_as_null" } else { "null_read_as_non_null" }, i, String::new());
+            continue;
+        }
+        if val.is_null() {
+            stats.nulls += 1;
+            check_null_col(out, &view, i, c);
+            continue;
+        }
+        match val {
+            V::Null(_) => {}
+            V::Bool(x) => getter!(out, i, dt, view.get_bool(i), view.get_bool_opt(i), *x, |a: &bool, b: &bool| a == b),
+            V::I16(x) => getter!(out, i, dt, view.get_int2(i), view.get_int2_opt(i), *x, |a: &i16, b: &i16| a == b),
+            V::I32(x) => {
+                if dt == DataType::Date {
+                    getter!(out, i, dt, view.get_date(i), view.get_date_opt(i), *x, |a: &i32, b: &i32| a == b)
+                } else {
+                    getter!(out, i, dt, view.get_int4(i), view.get_int4_opt(i), *x, |a: &i32, b: &i32| a == b)
+                }
+            }
+            V::I64(x) => match dt {
+                DataType::Time => getter!(out, i, dt, view.get_time(i), view.get_time_opt(i), *x, |a: &i64, b: &i64| a == b),
+                DataType::Timestamp => getter!(out, i, dt, view.get_timestamp(i), view.get_timestamp_opt(i), *x, |a: &i64, b: &i64| a == b),
+                _ => getter!(out, i, dt, view.get_int8(i), view.get_int8_opt(i), *x, |a: &i64, b: &i64| a == b),
+            },
+            V::F32(x) => getter!(out, i, dt, view.get_float4(i), view.get_float4_opt(i), *x, |a: &f32, b: &f32| a.to_bits() == b.to_bits()),
+            V::F64(x) => getter!(out, i, dt, view.get_float8(i), view.get_float8_opt(i), *x, |a: &f64, b: &f64| f64s(*a, *b)),
+            V::TsTz(m, o) => getter!(out, i, dt, view.get_timestamptz(i), view.get_timestamptz_opt(i), (*m, *o), |a: &(i64, i32), b: &(i64, i32)| a == b),
+            V::B16(x) => {
+                if dt == DataType::Uuid {
+                    getter!(out, i, dt, view.get_uuid(i), view.get_uuid_opt(i), x, |a: &&[u8; 16], b: &&[u8; 16]| a == b)
+                } else {
+                    getter!(out, i, dt, view.get_inet6(i), view.get_inet6_opt(i), x, |a: &&[u8; 16], b: &&[u8; 16]| a == b)
+                }
+            }
+            V::B6(x) => getter!(out, i, dt, view.get_macaddr(i), view.get_macaddr_opt(i), x, |a: &&[u8; 6], b: &&[u8; 6]| a == b),
+            V::B4(x) => getter!(out, i, dt, view.get_inet4(i), view.get_inet4_opt(i), x, |a: &&[u8; 4], b: &&[u8; 4]| a == b),
+            V::Interval(m, d, mo) => getter!(out, i, dt, view.get_interval(i), view.get_interval_opt(i), (*m, *d, *mo), |a: &(i64, i32, i32), b: &(i64, i32, i32)| a == b),
+            V::Point(x, y) => getter!(out, i, dt, view.get_point(i), view.get_point_opt(i), (*x, *y), |a: &(f64, f64), b: &(f64, f64)| f64s(a.0, b.0) && f64s(a.1, b.1)),
+            V::GBox(l, h) => getter!(out, i, dt, view.get_box(i), view.get_box_opt(i), (*l, *h), |a: &((f64, f64), (f64, f64)), b: &((f64, f64), (f64, f64))| f64s(a.0 .0, b.0 .0)
+                && f64s(a.0 .1, b.0 .1)
+                && f64s(a.1 .0, b.1 .0)
+                && f64s(a.1 .1, b.1 .1)),
+            V::Circle(ce, r) => getter!(out, i, dt, view.get_circle(i), view.get_circle_opt(i), (*ce, *r), |a: &((f64, f64), f64), b: &((f64, f64), f64)| f64s(a.0 .0, b.0 .0) && f64s(a.0 .1, b.0 .1) && f64s(a.1, b.1)),
+            V::Enum(t, o) => getter!(out, i, dt, view.get_enum(i), view.get_enum_opt(i), (*t, *o), |a: &(u16, u16), b: &(u16, u16)| a == b),
+            V::R32(r) => {
+                let want = want_r32(r);
+                if dt == DataType::DateRange {
+                    getter!(out, i, dt, view.get_date_range(i), view.get_date_range_opt(i), want, |a: &Range<i32>, b: &Range<i32>| a == b)
+                } else {
+                    getter!(out, i, dt, view.get_int4_range(i), view.get_int4_range_opt(i), want, |a: &Range<i32>, b: &Range<i32>| a == b)
+                }
+            }
+            V::R64(r) => {
+                let want = want_r64(r);
+                if dt == DataType::TimestampRange {
+                    getter!(out, i, dt, view.get_timestamp_range(i), view.get_timestamp_range_opt(i), want, |a: &Range<i64>, b: &Range<i64>| a == b)
+                } else {
+                    getter!(out, i, dt, view.get_int8_range(i), view.get_int8_range_opt(i), want, |a: &Range<i64>, b: &Range<i64>| a == b)
+                }
+            }
+            V::Str(s) => {
+                let want = char_expected(c, s, mode);
+                let w: &str = &want;
+                let eq = |a: &&str, b: &&str| a == b;
+                match dt {
+                    DataType::Char => getter!(out, i, dt, view.get_char(i), view.get_text_opt(i), w, eq),
+                    DataType::Varchar => getter!(out, i, dt, view.get_varchar(i), view.get_text_opt(i), w, eq),
+                    _ => getter!(out, i, dt, view.get_text(i), view.get_text_opt(i), w, eq),
+                }
+                // the blob getters see the same bytes
+                match view.get_var_raw(i) {
+                    Ok(b) if b == want.as_bytes() => {}
+                    other => fail(out, "getter_round_trip", dt, "var_raw", i, format!("{:?}", other.map(|b| b.len()).map_err(|e| e.to_string()))),
+                }
+            }
+            V::Bytes(x) => {
+                let w: &[u8] = x;
+                getter!(out, i, dt, view.get_blob(i), view.get_blob_opt(i), w, |a: &&[u8], b: &&[u8]| a == b)
+            }
+            V::Vec32(x) => {
+                let want = vec_bits(x);
+                getter!(out, i, dt, view.get_vector_copy(i).map(|g| vec_bits(&g)), view.get_vector_opt(i).map(|o| o.map(|g| vec_bits(&g))), want, |a: &Vec<u32>, b: &Vec<u32>| a == b);
+                // zero-copy getter: documented to refuse (Err) when the payload is not 4-byte aligned
+                let (s, _e) = view.get_var_bounds(i).unwrap_or((0, 0));
+                let aligned = (bytes.as_ptr() as usize + s + 4) % 4 == 0;
+                match view.get_vector(i) {
+                    Ok(g) => {
+                        stats.vec_zero_copy += 1;
+                        if vec_bits(g) != want {
+                            fail(out, "getter_round_trip", dt, "zero_copy_value", i, String::new());
+                        }
+                    }
+                    Err(e) => {
+                        if aligned {
+                            fail(out, "getter_round_trip", dt, "zero_copy_err_on_aligned", i, e.to_string());
+                        }
+                    }
+                }
+            }
+            V::Json(b, _) => {
+                let w: &[u8] = b;
+                getter!(out, i, dt, view.get_jsonb(i).map(|j| j.data()), view.get_jsonb_opt(i).map(|o| o.map(|j| j.data())), w, |a: &&[u8], b: &&[u8]| a == b)
+            }
+            V::Dec(d, s, n) => {
+                let neg = if mode == Mode::Glue { *d < 0 } else { *n };
+                let want = (*d, *s, neg);
+                getter!(
+                    out,
+                    i,
+                    dt,
+                    view.get_decimal(i).map(|x| (x.digits(), x.scale(), x.is_negative())),
+                    view.get_decimal_opt(i).map(|o| o.map(|x| (x.digits(), x.scale(), x.is_negative()))),
+                    want,
+                    |a: &(i128, i16, bool), b: &(i128, i16, bool)| a == b
+                )
+            }
+            V::Comp(nvals, cbytes) => {
+                stats.composites += 1;
+                let w: &[u8] = cbytes;
+                match view.get_var_raw(i) {
+                    Ok(b) if b == w => {}
+                    other => fail(out, "composite", dt, "raw_bytes", i, format!("{:?}", other.map(|b| b.len()).map_err(|e| e.to_string()))),
+                }
+                let nf = c.nested.len();
+                for r in [view.get_composite(i, nf).map(Some), view.get_composite_opt(i, nf)] {
+                    match r {
+                        Ok(Some(cv)) => {
+                            if cv.field_count() != nf {
+                                fail(out, "composite", dt, "field_count", i, String::new());
+                            }
+                            let hl = u16::from_le_bytes([cbytes[0], cbytes[1]]) as usize;
+                            for (k, nv) in nvals.iter().enumerate() {
+                                if cv.is_null(k) != nv.is_null() {
+                                    fail(out, "composite", dt, "field_null_flag", i, format!("field {}", k));
+                                }
+                                match cv.get_field(k) {
+                                    Ok(f) => {
+                                        if nv.is_null() || f != &cbytes[hl..] {
+                                            fail(out, "composite", dt, "get_field", i, format!("field {}", k));
+                                        }
+                                    }
+                                    Err(_) => {
+                                        if !nv.is_null() {
+                                            fail(out, "composite", dt, "get_field_err", i, format!("field {}", k));
+                                        }
+                                    }
+                                }
+                            }
+                            if !cv.is_null(nf) || !cv.is_null(nf + 9) {
+                                fail(out, "composite", dt, "out_of_range_field_not_null", i, String::new());
+                            }
+                        }
+                        Ok(None) => fail(out, "opt_getter", dt, "non_null_reported_missing", i, String::new()),
+                        Err(e) => fail(out, "composite", dt, "getter_err", i, e.to_string()),
+                    }
+                }
+                // the composite payload is a record of the nested schema: all nested values must read back
+                if depth < 4 {
+                    let ns = mk_schema(&c.nested);
+                    let before = out.len();
+                    check_view(out, cbytes, &ns, &c.nested, nvals, Mode::Direct, depth + 1, stats);
+                    attribute_causes(&mut out[before..], cbytes, &c.nested);
+                    for f in out[before..].iter_mut() {
+                        if f.sig.ends_with("@nested") || f.sig.ends_with("/record_without_payload") {
+                            continue;
+                        }
+                        f.sig = format!("{}@nested", f.sig);
+                    }
+                }
+            }
+            V::Arr(els, abytes) => {
+                stats.arrays += 1;
+                for r in [view.get_array(i).map(Some), view.get_array_opt(i)] {
+                    match r {
+                        Ok(Some(av)) => check_array(out, i, c, els, abytes, &av),
+                        Ok(None) => fail(out, "opt_getter", dt, "non_null_reported_missing", i, String::new()),
+                        Err(e) => fail(out, "array", dt, "getter_err", i, e.to_string()),
+                    }
+                }
+                match view.get_var_raw(i) {
+                    Ok(b) if b == &abytes[..] => {}
+                    _ => fail(out, "array", dt, "raw_bytes", i, String::new()),
+                }
+            }
+        }
+    }
+}
+
+/// Give failures whose concrete cause the oracle can establish a cause-specific signature
+/// (one per root cause instead of one per column type).
+fn attribute_causes(fails: &mut [Fail], bytes: &[u8], cols: &[Col]) {
+    let header = if bytes.len() >= 2 { u16::from_le_bytes([bytes[0], bytes[1]]) as usize } else { 0 };
+    let no_payload = bytes.len() <= header;
+    for f in fails.iter_mut() {
+        if no_payload && cols.iter().all(|c| !is_fixed(c.dt)) {
+            // RecordView::record_column_count() returns 0 when data.len() <= header_len
+            if f.sig.ends_with("/non_null_reported_missing") {
+                f.sig = "C31/opt_getter/non_null_reported_missing/record_without_payload".to_string();
+            } else if f.sig.ends_with("/non_null_extracted_as_null") {
+                f.sig = "C31/owned_extract/non_null_extracted_as_null/record_without_payload".to_string();
+            }
+        }
+        if f.sig.contains("/owned_extract/") && f.sig.contains("Range/err") && f.detail["detail"].as_str().map(|d| d.contains("is not a variable column")).unwrap_or(false) {
+            f.sig = "C31/owned_extract/range_column_read_as_variable_column".to_string();
+        }
+    }
+}
+
+fn var_size_mode(c: &Col, v: &V, mode: Mode) -> usize {
+    if mode == Mode::Glue && c.dt == DataType::Char {
+        if let V::Str(s) = v {
+            return s.len();
+        }
+    }
+    var_size(c, v)
+}
+
+fn check_array(out: &mut Vec<Fail>, i: usize, c: &Col, els: &[Option<El>], abytes: &[u8], av: &turdb::records::ArrayView<'_>) {
+    let dt = DataType::Array;
+    let what = |s: &str| format!("{:?}_{}", c.elem, s);
+    if av.len() != els.len() || av.is_empty() != els.is_empty() {
+        fail(out, "array", dt, &what("len"), i, format!("{} vs {}", av.len(), els.len()));
+        return;
+    }
+    if av.elem_type() != c.elem {
+        fail(out, "array", dt, &what("elem_type"), i, String::new());
+    }
+    if u32::from_le_bytes([abytes[0], abytes[1], abytes[2], abytes[3]]) as usize != abytes.len() {
+        fail(out, "array", dt, &what("total_size_header"), i, String::new());
+    }
+    if !av.is_null(els.len()) {
+        fail(out, "array", dt, &what("out_of_range_not_null"), i, String::new());
+    }
+    for (k, e) in els.iter().enumerate() {
+        if av.is_null(k) != e.is_none() {
+            fail(out, "array", dt, &what("null_flag"), i, format!("elem {}", k));
+            return;
+        }
+        let ok = match e {
+            None => match c.elem {
+                DataType::Text => av.get_text(k).is_err(),
+                DataType::Blob => av.get_blob(k).is_err(),
+                _ => true,
+            },
+            Some(El::I16(v)) => av.get_int2(k).ok() == Some(*v),
+            Some(El::I32(v)) => av.get_int4(k).ok() == Some(*v),
+            Some(El::I64(v)) => av.get_int8(k).ok() == Some(*v),
+            Some(El::F32(v)) => av.get_float4(k).ok().map(|x| x.to_bits()) == Some(v.to_bits()),
+            Some(El::F64(v)) => av.get_float8(k).ok().map(|x| x.to_bits()) == Some(v.to_bits()),
+            Some(El::B(v)) => av.get_bool(k).ok() == Some(*v),
+            Some(El::S(v)) => av.get_text(k).ok() == Some(v.as_str()),
+            Some(El::Y(v)) => av.get_blob(k).ok() == Some(v.as_slice()),
+        };
+        if !ok {
+            fail(out, "array", dt, &what("element"), i, format!("elem {} of {}: {:?}", k, els.len(), e));
+            return;
+        }
+    }
+}
+
+// ---------------------------------------------------------------- OwnedValue glue
+
+fn to_owned(c: &Col, v: &V) -> OwnedValue {
+    match v {
+        V::Null(_) => OwnedValue::Null,
+        V::Bool(x) => OwnedValue::Bool(*x),
+        V::I16(x) => OwnedValue::Int(*x as i64),
+        V::I32(x) => {
+            if c.dt == DataType::Date {
+                OwnedValue::Date(*x)
+            } else {
+                OwnedValue::Int(*x as i64)
+            }
+        }
+        V::I64(x) => match c.dt {
+            DataType::Time => OwnedValue::Time(*x),
+            DataType::Timestamp => OwnedValue::Timestamp(*x),
+            _ => OwnedValue::Int(*x),
+        },
+        V::F32(x) => OwnedValue::Float(*x as f64),
+        V::F64(x) => OwnedValue::Float(*x),
+        V::TsTz(m, o) => OwnedValue::TimestampTz(*m, *o),
+        V::B16(x) => {
+            if c.dt == DataType::Uuid {
+                OwnedValue::Uuid(*x)
+            } else {
+                OwnedValue::Inet6(*x)
+            }
+        }
+        V::B6(x) => OwnedValue::MacAddr(*x),
+        V::B4(x) => OwnedValue::Inet4(*x),
+        V::Interval(m, d, mo) => OwnedValue::Interval(*m, *d, *mo),
+        V::Point(x, y) => OwnedValue::Point(*x, *y),
+        V::GBox(l, h) => OwnedValue::Box(*l, *h),
+        V::Circle(ce, r) => OwnedValue::Circle(*ce, *r),
+        V::Enum(t, o) => OwnedValue::Enum(*t, *o),
+        V::R32(_) | V::R64(_) => OwnedValue::Null, // no OwnedValue representation
+        V::Str(s) => OwnedValue::Text(s.clone()),
+        V::Bytes(b) => OwnedValue::Blob(b.clone()),
+        V::Vec32(x) => OwnedValue::Vector(x.clone()),
+        V::Json(b, _) => OwnedValue::Jsonb(b.clone()),
+        V::Dec(d, s, _) => OwnedValue::Decimal(*d, *s),
+        V::Comp(_, b) => OwnedValue::Blob(b.clone()),
+        V::Arr(_, b) => OwnedValue::Blob(b.clone()),
+    }
+}
+
+/// what from_record_column must return for a column holding `v` (None = no expectation)
+fn expected_owned(c: &Col, v: &V, mode: Mode) -> Option<OwnedValue> {
+    Some(match v {
+        V::R32(_) | V::R64(_) => return None,
+        V::Str(s) => OwnedValue::Text(char_expected(c, s, mode)),
+        V::Bytes(b) if b.len() == 17 && b[0] == 0xFE => return None,
+        other => to_owned(c, other),
+    })
+}
+
+fn owned_same(a: &OwnedValue, b: &OwnedValue) -> bool {
+    use OwnedValue as O;
+    let fe = |x: f64, y: f64| x.to_bits() == y.to_bits() || (x.is_nan() && y.is_nan());
+    match (a, b) {
+        (O::Float(x), O::Float(y)) => fe(*x, *y),
+        (O::Vector(x), O::Vector(y)) => x.len() == y.len() && x.iter().zip(y.iter()).all(|(p, q)| p.to_bits() == q.to_bits()),
+        (O::Point(a0, a1), O::Point(b0, b1)) => fe(*a0, *b0) && fe(*a1, *b1),
+        (O::Box(al, ah), O::Box(bl, bh)) => fe(al.0, bl.0) && fe(al.1, bl.1) && fe(ah.0, bh.0) && fe(ah.1, bh.1),
+        (O::Circle(ac, ar), O::Circle(bc, br)) => fe(ac.0, bc.0) && fe(ac.1, bc.1) && fe(*ar, *br),
+        _ => a == b,
+    }
+}
+
+fn check_extract(out: &mut Vec<Fail>, bytes: &[u8], schema: &Schema, cols: &[Col], vals: &[V], mode: Mode) {
+    let view = match RecordView::new(bytes, schema) {
+        Ok(v) => v,
+        Err(_) => return,
+    };
+    let mut whole_row_ok = true;
+    for (i, (c, v)) in cols.iter().zip(vals).enumerate() {
+        match OwnedValue::from_record_column(&view, i, c.dt) {
+            Ok(got) => {
+                if let Some(want) = expected_owned(c, v, mode) {
+                    if !owned_same(&got, &want) {
+                        let what = match (&got, &want) {
+                            (OwnedValue::Null, _) => "non_null_extracted_as_null",
+                            (_, OwnedValue::Null) => "null_extracted_as_value",
+                            _ => "value",
+                        };
+                        fail(out, "owned_extract", c.dt, what, i, format!("got {} want {}", trunc(&format!("{:?}", got)), trunc(&format!("{:?}", want))));
+                    }
+                }
+            }
+            Err(e) => {
+                whole_row_ok = false;
+                fail(out, "owned_extract", c.dt, "err", i, e.to_string());
+            }
+        }
+    }
+    let tcols: Vec<turdb::schema::ColumnDef> = cols.iter().enumerate().map(|(i, c)| turdb::schema::ColumnDef::new(format!("c{}", i), c.dt)).collect();
+    match OwnedValue::extract_row_from_record(&view, &tcols) {
+        Ok(row) => {
+            if row.len() != cols.len() {
+                out.push(Fail { assertion: "owned_extract", sig: "C31/owned_extract/row_len".into(), detail: json!({"len": row.len()}) });
+            }
+        }
+        Err(e) => {
+            if whole_row_ok {
+                out.push(Fail { assertion: "owned_extract", sig: "C31/owned_extract/row_err_but_columns_ok".into(), detail: json!({"err": e.to_string()}) });
+            }
+        }
+    }
+}
+
+fn trunc(s: &str) -> String {
+    if s.len() > 160 {
+        let mut e = 160;
+        while !s.is_char_boundary(e) {
+            e -= 1;
+        }
+        format!("{}...({} bytes)", &s[..e], s.len())
+    } else {
+        s.to_string()
+    }
+}
+
+// ---------------------------------------------------------------- case driver
+
+#[derive(Default)]
+struct Stats {
+    cols: u64,
+    nulls: u64,
+    arrays: u64,
+    composites: u64,
+    vec_zero_copy: u64,
+}
+
+fn describe(cols: &[Col], vals: &[V]) -> J {
+    let items: Vec<J> = cols
+        .iter()
+        .zip(vals)
+        .map(|(c, v)| {
+            let ty = match c.dt {
+                DataType::Char | DataType::Varchar => format!("{:?}({:?})", c.dt, c.clen),
+                DataType::Array => format!("Array<{:?}>", c.elem),
+                DataType::Composite => format!("Composite[{}]", c.nested.len()),
+                dt => format!("{:?}", dt),
+            };
+            json!([ty, trunc(&format!("{:?}", v))])
+        })
+        .collect();
+    J::Array(items)
+}
+
+fn struct_hash(cols: &[Col], vals: &[V]) -> u64 {
+    let mut key: Vec<u8> = Vec::with_capacity(cols.len() * 3);
+    for (c, v) in cols.iter().zip(vals) {
+        key.push(c.dt as u8);
+        key.push(v.is_null() as u8);
+        let vs = var_size(c, v);
+        key.push(if vs == 0 { 0 } else { (usize::BITS - vs.leading_zeros()) as u8 });
+    }
+    fnv(&key)
+}
+
+thread_local! {
+    static SEEN: std::cell::RefCell<std::collections::HashMap<String, u64>> = std::cell::RefCell::new(std::collections::HashMap::new());
+}
+
+/// Every failing observation is counted under `failing:<sig>`. Known findings are always forwarded
+/// (they only count); an unexplained signature is forwarded to the report the first time only, so
+/// that each distinct signature gets a replay file instead of the first one taking them all.
+fn viol(ctx: &mut Ctx, assertion: &str, sig: &str, detail: impl FnOnce() -> J) {
+    ctx.count(&format!("failing:{}", sig), 1);
+    let n = SEEN.with(|s| {
+        let mut s = s.borrow_mut();
+        let e = s.entry(sig.to_string()).or_insert(0);
+        *e += 1;
+        *e
+    });
+    if ctx.is_known(sig).is_some() || n <= 1 {
+        ctx.violation(assertion, sig, detail());
+    } else {
+        ctx.count("violations_not_forwarded_after_first_per_sig", 1);
+    }
+}
+
+fn report(ctx: &mut Ctx, fails: Vec<Fail>, case: u64, label: &str, cols: &[Col], vals: &[V]) {
+    let mut seen = std::collections::HashSet::new();
+    for f in fails {
+        if !seen.insert(f.sig.clone()) {
+            continue;
+        }
+        let sig = f.sig.clone();
+        viol(ctx, f.assertion, &sig, || json!({"case": case, "stage": label, "ncols": cols.len(), "failure": f.detail, "row": describe(cols, vals)}));
+    }
+}
+
+/// one (schema, row): fresh build, reset rebuild on the dirty builder, view, extraction, glue
+#[allow(clippy::too_many_arguments)]
+fn run_row<'s, 'g>(
+    ctx: &mut Ctx,
+    rng: &mut Rng,
+    case: u64,
+    schema: &'s Schema,
+    cols: &[Col],
+    vals: &[V],
+    dirty: &mut Option<RecordBuilder<'s>>,
+    dirty_buf: &mut Vec<u8>,
+    glue: &mut GlueState<'g>,
+    stats: &mut Stats,
+) {
+    ctx.eval();
+    let mut order: Vec<usize> = (0..cols.len()).collect();
+    if rng.chance(1, 2) {
+        rng.shuffle(&mut order);
+    }
+    let variant = rng.below(4);
+    let overwrite = rng.chance(1, 6);
+    let mut fails: Vec<Fail> = vec![];
+    let mut viewed = false;
+    let r = catch(|| {
+        let mut fails: Vec<Fail> = vec![];
+        // fresh build
+        let fresh = {
+            let mut b = RecordBuilder::new(schema);
+            if overwrite {
+                // a first, different small value (or a value later nulled, fixed columns only) must not leak
+                for &i in &order {
+                    let c = &cols[i];
+                    if is_fixed(c.dt) || !vals[i].is_null() {
+                        if let Some(v0) = gen_value(&mut Rng::new(case ^ i as u64), c, 8, true) {
+                            let _ = apply(&mut b, i, c, &v0);
+                        }
+                    }
+                }
+                for &i in &order {
+                    if vals[i].is_null() {
+                        b.set_null(i);
+                    }
+                }
+            }
+            match apply_all(&mut b, cols, vals, Some(&order)).and_then(|_| b.build()) {
+                Ok(x) => x,
+                Err(e) => {
+                    fails.push(Fail { assertion: "build_ok", sig: "C31/build_ok/setter_or_build_err".into(), detail: json!({"err": e.to_string()}) });
+                    return fails;
+                }
+            }
+        };
+        let mut st = Stats::default();
+        check_view(&mut fails, &fresh, schema, cols, vals, Mode::Direct, 0, &mut st);
+        check_extract(&mut fails, &fresh, schema, cols, vals, Mode::Direct);
+        attribute_causes(&mut fails, &fresh, cols);
+        *stats = st;
+        viewed = true;
+
+        // reset + rebuild on a builder that is dirty from the previous row of this schema
+        if !overwrite {
+            let mut b = dirty.take().unwrap_or_else(|| RecordBuilder::new(schema));
+            if variant == 3 {
+                // through RecordBuilderState
+                let mut s = b.into_state();
+                s.reset(schema);
+                b = s.into_builder(schema);
+            } else {
+                b.reset();
+            }
+            let rebuilt = apply_all(&mut b, cols, vals, Some(&order)).and_then(|_| b.build());
+            match rebuilt {
+                Ok(x) => {
+                    if x != fresh {
+                        let at = x.iter().zip(fresh.iter()).position(|(a, b)| a != b).unwrap_or(x.len().min(fresh.len()));
+                        fails.push(Fail {
+                            assertion: "reset_rebuild",
+                            sig: format!("C31/reset_rebuild/{}", if variant == 3 { "state_reset_bytes_differ" } else { "bytes_differ" }),
+                            detail: json!({"fresh_len": fresh.len(), "rebuilt_len": x.len(), "first_diff_at": at}),
+                        });
+                    }
+                }
+                Err(e) => fails.push(Fail { assertion: "reset_rebuild", sig: "C31/reset_rebuild/err".into(), detail: json!({"err": e.to_string()}) }),
+            }
+            match b.build_into(dirty_buf) {
+                Ok(()) => {
+                    if *dirty_buf != fresh {
+                        fails.push(Fail { assertion: "reset_rebuild", sig: "C31/reset_rebuild/build_into_bytes_differ".into(), detail: json!({"fresh_len": fresh.len(), "len": dirty_buf.len()}) });
+                    }
+                }
+                Err(e) => fails.push(Fail { assertion: "reset_rebuild", sig: "C31/reset_rebuild/build_into_err".into(), detail: json!({"err": e.to_string()}) }),
+            }
+            *dirty = Some(b);
+        }
+        fails
+    });
+    match r {
+        Ok(f) => fails.extend(f),
+        Err(p) => {
+            *dirty = None;
+            fails.push(Fail { assertion: "no_panic", sig: format!("C31/no_panic/direct@{}", panic_site(&p)), detail: json!({"panic": p}) });
+        }
+    }
+    report(ctx, fails, case, "direct", cols, vals);
+    if viewed && vals.iter().any(|v| !v.is_null()) {
+        ctx.nontrivial(struct_hash(cols, vals));
+    }
+
+    // ---- OwnedValue glue: ranges have no OwnedValue form and FLOAT4 is exercised separately
+    let gvals: Vec<V> = cols
+        .iter()
+        .zip(vals)
+        .map(|(c, v)| match v {
+            V::R32(_) | V::R64(_) => V::Null(false),
+            V::F32(_) if !glue.keep_f32 => V::Null(false),
+            V::Bytes(b) if c.dt == DataType::Blob && b.len() == 17 && b[0] == 0xFE => V::Null(false),
+            other => other.clone(),
+        })
+        .collect();
+    run_glue(ctx, case, cols, &gvals, glue);
+}
+
+struct GlueState<'s> {
+    schema: &'s Schema,
+    builder: Option<RecordBuilder<'s>>,
+    buf: Vec<u8>,
+    keep_f32: bool,
+}
+
+fn run_glue<'s>(ctx: &mut Ctx, case: u64, cols: &[Col], gvals: &[V], glue: &mut GlueState<'s>) {
+    let gs = glue.schema;
+    let ovs: Vec<OwnedValue> = cols.iter().zip(gvals).map(|(c, v)| to_owned(c, v)).collect();
+    let has_f32 = gvals.iter().any(|v| matches!(v, V::F32(_)));
+    let r = catch(|| {
+        let mut fails: Vec<Fail> = vec![];
+        let g1 = match OwnedValue::build_record_from_values(&ovs, gs) {
+            Ok(x) => x,
+            Err(e) => {
+                fails.push(Fail { assertion: "owned_glue", sig: "C31/owned_glue/build_err".into(), detail: json!({"err": e.to_string()}) });
+                return fails;
+            }
+        };
+        let mut b = glue.builder.take().unwrap_or_else(|| RecordBuilder::new(gs));
+        match OwnedValue::build_record_with_builder(&ovs, &mut b) {
+            Ok(g2) if g2 == g1 => {}
+            Ok(_) => fails.push(Fail { assertion: "reset_rebuild", sig: "C31/reset_rebuild/owned_with_builder_bytes_differ".into(), detail: json!({}) }),
+            Err(e) => fails.push(Fail { assertion: "owned_glue", sig: "C31/owned_glue/with_builder_err".into(), detail: json!({"err": e.to_string()}) }),
+        }
+        match OwnedValue::build_record_into_buffer(&ovs, &mut b, &mut glue.buf) {
+            Ok(()) if glue.buf == g1 => {}
+            Ok(()) => fails.push(Fail { assertion: "reset_rebuild", sig: "C31/reset_rebuild/owned_into_buffer_bytes_differ".into(), detail: json!({}) }),
+            Err(e) => fails.push(Fail { assertion: "owned_glue", sig: "C31/owned_glue/into_buffer_err".into(), detail: json!({"err": e.to_string()}) }),
+        }
+        glue.builder = Some(b);
+        let mut st = Stats::default();
+        let before = fails.len();
+        check_view(&mut fails, &g1, gs, cols, gvals, Mode::Glue, 0, &mut st);
+        check_extract(&mut fails, &g1, gs, cols, gvals, Mode::Glue);
+        attribute_causes(&mut fails[before..], &g1, cols);
+        for f in fails[before..].iter_mut() {
+            if !f.sig.ends_with("/record_without_payload") {
+                f.sig = f.sig.replacen("C31/", "C31/owned_glue:", 1);
+            }
+        }
+        fails
+    });
+    let mut fails = match r {
+        Ok(f) => f,
+        Err(p) => {
+            glue.builder = None;
+            vec![Fail { assertion: "no_panic", sig: format!("C31/no_panic/owned_glue@{}", panic_site(&p)), detail: json!({"panic": p}) }]
+        }
+    };
+    if !fails.is_empty() && has_f32 {
+        // establish the cause: does the same row pass with the FLOAT4 values nulled?
+        let g2: Vec<V> = gvals.iter().map(|v| if matches!(v, V::F32(_)) { V::Null(false) } else { v.clone() }).collect();
+        let ovs2: Vec<OwnedValue> = cols.iter().zip(&g2).map(|(c, v)| to_owned(c, v)).collect();
+        let pass = catch(|| {
+            let mut f2 = vec![];
+            if let Ok(bytes) = OwnedValue::build_record_from_values(&ovs2, gs) {
+                let mut st = Stats::default();
+                check_view(&mut f2, &bytes, gs, cols, &g2, Mode::Glue, 0, &mut st);
+                f2.is_empty()
+            } else {
+                false
+            }
+        })
+        .unwrap_or(false);
+        if pass {
+            let d: Vec<J> = fails.iter().map(|f| json!({"sig": f.sig, "detail": f.detail})).collect();
+            fails = vec![Fail { assertion: "owned_glue", sig: "C31/owned_glue/float4_column_written_with_set_float8".into(), detail: json!({"underlying": d}) }];
+        }
+    }
+    report(ctx, fails, case, "owned_glue", cols, gvals);
+}
+
+/// rows whose variable data exceeds what u16 end offsets can address: build() must say no or be right
+fn run_oversize(ctx: &mut Ctx, rng: &mut Rng, case: u64) {
+    ctx.eval();
+    let nvarcols = rng.usize(1, 5);
+    let mut cols: Vec<Col> = vec![];
+    for _ in 0..nvarcols {
+        let dt = *rng.pick(&[DataType::Text, DataType::Blob]);
+        cols.push(gen_col(rng, dt, 0));
+    }
+    if rng.chance(1, 2) {
+        cols.insert(0, gen_col(rng, DataType::Int4, 0));
+    }
+    let total = match rng.below(4) {
+        0 => 65536,
+        1 => 65536 + rng.usize(1, 64),
+        2 => 131072,
+        _ => rng.usize(65536, 200_000),
+    };
+    let mut left = total;
+    let mut vals: Vec<V> = vec![];
+    let nv = cols.iter().filter(|c| !is_fixed(c.dt)).count();
+    let mut k = 0;
+    for c in &cols {
+        if is_fixed(c.dt) {
+            vals.push(V::I32(7));
+            continue;
+        }
+        k += 1;
+        let l = if k == nv { left } else { rng.usize(0, left) };
+        left -= l;
+        vals.push(if c.dt == DataType::Text { V::Str("z".repeat(l)) } else { V::Bytes(vec![0x5A; l]) });
+    }
+    let schema = mk_schema(&cols);
+    let r = catch(|| {
+        let mut fails = vec![];
+        match build_direct(&schema, &cols, &vals, None) {
+            Err(_) => (0u8, fails),
+            Ok(bytes) => {
+                let mut st = Stats::default();
+                check_view(&mut fails, &bytes, &schema, &cols, &vals, Mode::Direct, 0, &mut st);
+                (1u8, fails)
+            }
+        }
+    });
+    match r {
+        Ok((0, _)) => ctx.count("oversize_rejected", 1),
+        Ok((_, fails)) => {
+            if fails.is_empty() {
+                ctx.count("oversize_round_tripped", 1);
+            } else {
+                ctx.count("oversize_corrupt", 1);
+                let d: Vec<J> = fails.iter().take(4).map(|f| json!({"sig": f.sig, "detail": f.detail})).collect();
+                viol(ctx, "oversize_var_data", "C31/oversize_var_data/build_ok_but_record_does_not_read_back", || {
+                    json!({"case": case, "total_var_bytes": total, "var_lens": vals.iter().zip(&cols).map(|(v, c)| var_size(c, v)).collect::<Vec<_>>(), "underlying": d})
+                });
+            }
+        }
+        Err(p) => {
+            ctx.count("oversize_panic", 1);
+            viol(ctx, "oversize_var_data", &format!("C31/oversize_var_data/panic@{}", panic_site(&p)), || {
+                json!({"case": case, "total_var_bytes": total, "var_lens": vals.iter().zip(&cols).map(|(v, c)| var_size(c, v)).collect::<Vec<_>>(), "panic": p})
+            });
+        }
+    }
+}
+
+/// ArrayBuilder on its own: reset + rebuild gives the same bytes
+fn run_array_reset(ctx: &mut Ctx, rng: &mut Rng, case: u64) {
+    ctx.eval();
+    let elem = *rng.pick(&ELEM_TYPES);
+    let c = Col { dt: DataType::Array, clen: None, nested: vec![], elem };
+    let a = gen_value(rng, &c, 4000, false);
+    let b = gen_value(rng, &c, 4000, false);
+    if let (Some(V::Arr(e1, bytes1)), Some(V::Arr(e2, _))) = (a, b) {
+        let r = catch(|| {
+            let mut ab = ArrayBuilder::new(elem);
+            push_array(&mut ab, &e2);
+            let _ = ab.build();
+            ab.reset();
+            push_array(&mut ab, &e1);
+            ab.build()
+        });
+        match r {
+            Ok(x) => {
+                if x != bytes1 {
+                    viol(ctx, "reset_rebuild", &format!("C31/reset_rebuild/array_builder_{:?}", elem), || json!({"case": case, "n_first": e2.len(), "n": e1.len(), "nulls_first": e2.iter().filter(|e| e.is_none()).count()}));
+                }
+            }
+            Err(p) => {
+                viol(ctx, "no_panic", &format!("C31/no_panic/array_builder@{}", panic_site(&p)), || json!({"case": case, "panic": p}));
+            }
+        }
+    }
+}
+
+pub fn run(a: &Args) -> i32 {
+    let miri = cfg!(miri);
+    let mut ctx = Ctx::new(
+        "C31",
+        &a.tier,
+        a.seed,
+        "exploration",
+        "schemas of 1..64 columns (every count; styles: all fixed, all variable, one type repeated, all 32 DataTypes in rotation, text-heavy, random) incl. CHAR(n)/VARCHAR(n), composites nested <= 3 and arrays of 8 element types; 3-5 rows per schema on one reused builder; NULL density 0..100%; boundary ints/floats (NaN payloads, +-0, inf, subnormal; compared by bits); variable data empty / tiny / around the TOAST threshold / filling the 65535-byte u16 offset space exactly; random setter order; overwritten columns. A case = one (schema,row). distinct_nontrivial = distinct (type sequence, NULL mask, log2 var sizes) of rows with >= 1 non-NULL column whose record was built and read back column by column",
+    );
+    let mut rng = Rng::derive(a.seed, 31);
+    let quick = ctx.quick();
+    let nschemas: u64 = if miri { 70 } else if quick { 30_000 } else { 400_000 };
+    let mut tot = Stats::default();
+    let mut max_record = 0usize;
+    let mut class_counts = [0u64; 4];
+    let mut case: u64 = 0;
+    for s in 0..nschemas {
+        let ncols = if s < 64 { s as usize + 1 } else if rng.chance(1, 8) { 64 } else { rng.usize(1, 64) };
+        let cols = gen_schema(&mut rng, ncols);
+        let schema = mk_schema(&cols);
+        let tcols: Vec<turdb::schema::ColumnDef> = cols.iter().enumerate().map(|(i, c)| turdb::schema::ColumnDef::new(format!("c{}", i), c.dt)).collect();
+        let gschema = turdb::types::create_record_schema(&tcols);
+        let mut glue = GlueState { schema: &gschema, builder: None, buf: vec![0xEE; 7], keep_f32: false };
+        let mut dirty: Option<RecordBuilder<'_>> = None;
+        let mut dirty_buf: Vec<u8> = vec![0xDD; 11];
+        let nrows = if miri { 2 } else { rng.usize(3, 5) };
+        for _ in 0..nrows {
+            let class = if miri {
+                if s == 5 { RowClass::Exact } else { RowClass::Small }
+            } else {
+                match rng.below(if quick { 40 } else { 24 }) {
+                    0 => RowClass::Exact,
+                    1 => RowClass::Huge,
+                    2..=9 => RowClass::Medium,
+                    _ => RowClass::Small,
+                }
+            };
+            class_counts[class as usize] += 1;
+            let vals = gen_row(&mut rng, &cols, MAX_VAR, class);
+            let mut st = Stats::default();
+            run_row(&mut ctx, &mut rng, case, &schema, &cols, &vals, &mut dirty, &mut dirty_buf, &mut glue, &mut st);
+            tot.cols += st.cols;
+            tot.nulls += st.nulls;
+            tot.arrays += st.arrays;
+            tot.composites += st.composites;
+            tot.vec_zero_copy += st.vec_zero_copy;
+            let vs: usize = cols.iter().zip(&vals).map(|(c, v)| var_size(c, v)).sum();
+            max_record = max_record.max(vs);
+            if vs == MAX_VAR {
+                ctx.count("rows_with_exactly_65535_var_bytes", 1);
+            }
+            if case == 40 || case == 1000 {
+                ctx.sample(json!({"case": case, "ncols": cols.len(), "var_bytes": vs, "row": describe(&cols, &vals)}));
+            }
+            case += 1;
+        }
+    }
+    ctx.count("schemas", nschemas);
+    ctx.count("rows", case);
+    ctx.count("columns_checked", tot.cols);
+    ctx.count("null_columns", tot.nulls);
+    ctx.count("array_columns", tot.arrays);
+    ctx.count("composite_columns", tot.composites);
+    ctx.count("vector_zero_copy_reads", tot.vec_zero_copy);
+    ctx.count("rows_small", class_counts[RowClass::Small as usize]);
+    ctx.count("rows_medium", class_counts[RowClass::Medium as usize]);
+    ctx.count("rows_huge", class_counts[RowClass::Huge as usize]);
+    ctx.count("rows_exact_fill", class_counts[RowClass::Exact as usize]);
+    ctx.extra.insert("max_var_bytes_in_a_row".into(), json!(max_record));
+
+    // OwnedValue glue on schemas that contain FLOAT4 columns (from_record_column yields Float for them)
+    let nf4: u64 = if miri { 10 } else if quick { 2_000 } else { 20_000 };
+    for _ in 0..nf4 {
+        ctx.eval();
+        let ncols = rng.usize(1, 12);
+        let mut cols = gen_schema(&mut rng, ncols);
+        let k = rng.usize(0, ncols - 1);
+        cols[k] = gen_col(&mut rng, DataType::Float4, 0);
+        let tcols: Vec<turdb::schema::ColumnDef> = cols.iter().enumerate().map(|(i, c)| turdb::schema::ColumnDef::new(format!("c{}", i), c.dt)).collect();
+        let gschema = turdb::types::create_record_schema(&tcols);
+        let mut glue = GlueState { schema: &gschema, builder: None, buf: vec![], keep_f32: true };
+        let mut vals = gen_row(&mut rng, &cols, MAX_VAR, RowClass::Small);
+        if vals[k].is_null() {
+            vals[k] = V::F32(gen_f32(&mut rng));
+        }
+        let gvals: Vec<V> = vals.iter().map(|v| if matches!(v, V::R32(_) | V::R64(_)) { V::Null(false) } else { v.clone() }).collect();
+        run_glue(&mut ctx, case, &cols, &gvals, &mut glue);
+        case += 1;
+    }
+    ctx.count("owned_glue_float4_rows", nf4);
+
+    let nover: u64 = if miri { 3 } else if quick { 300 } else { 5_000 };
+    for _ in 0..nover {
+        run_oversize(&mut ctx, &mut rng, case);
+        case += 1;
+    }
+    ctx.count("oversize_rows", nover);
+
+    let narr: u64 = if miri { 20 } else if quick { 5_000 } else { 100_000 };
+    for _ in 0..narr {
+        run_array_reset(&mut ctx, &mut rng, case);
+        case += 1;
+    }
+    ctx.count("array_builder_reset_cases", narr);
+
+    ctx.assumptions.push("'fits the schema' = value of the column's type, CHAR/VARCHAR within their length, total variable bytes <= 65535 (u16 end offsets, records/mod.rs); larger rows are only checked for 'rejected or still correct'".into());
+    ctx.assumptions.push("OwnedValue glue: range columns have no OwnedValue form (kept NULL); a 17-byte blob starting with 0xFE is the documented TOAST pointer encoding and is not generated as a plain blob".into());
+    ctx.assumptions.push("NULL columns: only is_null and the *_opt getters are checked; plain getters on NULL columns are unspecified".into());
+    ctx.finish()
 }
